@@ -402,5 +402,8 @@ Verdict(o) ==
       (IF o.nl # 1 THEN <<"R", "log-lines", 0, "one line", "several">>
        ELSE IF o.cm # o.ic THEN <<"R", "inline-comment", 0, o.ic, o.cm>>
        ELSE LET h == HexVerdict(o, ~isx) IN IF h = "ok" THEN <<"ok">> ELSE <<"R", "machine-code", 0, h, "">>)
+    \* leg R: the text of a REFUSED request in the message handed to the ErrorHandler ("<error>: <instruction>[ ; comment]") - the same
+    \* Denote(request) as for accepted instructions (all decorations, the extra register, the options as given); no machine-code column
+    ELSE IF leg = "R" /\ o.cm # o.ic THEN <<"R", "inline-comment", 0, o.ic, o.cm>>
     ELSE <<"ok">>
 =============================================================================
